@@ -680,4 +680,49 @@ func replayMain(args []string) int {
 	return 0
 }
 
-func selftestMain(args []string) int { return 0 }
+// selftestMain validates the reference oracles natively against the standard library
+// (go test -tags verif -overlay, tests named TestVerifSelf*).
+func selftestMain(args []string) int {
+	tmp, err := os.MkdirTemp("", "vpself")
+	if err != nil {
+		fmt.Fprintln(os.Stderr, err)
+		return 2
+	}
+	defer os.RemoveAll(tmp)
+	rc := 0
+	for _, dir := range []string{"json", "root"} {
+		ov, _, err := overlayFilesT(map[string]bool{dir: true}, true)
+		if err != nil {
+			fmt.Fprintln(os.Stderr, err)
+			return 2
+		}
+		repl := map[string]string{}
+		n := 0
+		for virt, src := range ov {
+			real := filepath.Join(tmp, fmt.Sprintf("%s_%d_%s", dir, n, filepath.Base(virt)))
+			n++
+			os.WriteFile(real, src, 0644)
+			repl[virt] = real
+		}
+		ovjs, _ := json.Marshal(map[string]interface{}{"Replace": repl})
+		ovPath := filepath.Join(tmp, dir+"_overlay.json")
+		os.WriteFile(ovPath, ovjs, 0644)
+		pkgPat := "./" + pkgDirs[dir]
+		if pkgDirs[dir] == "" {
+			pkgPat = "."
+		}
+		cmd := exec.Command("go", "test", "-tags", "verif", "-vet=off", "-count=1", "-overlay", ovPath, "-run", "^TestVerifSelf", "-v", pkgPat)
+		cmd.Dir = repoDir
+		cmd.Env = append(os.Environ(), "GOFLAGS=-mod=mod", "GOPROXY=off", "GOSUMDB=off", "GOTOOLCHAIN=local")
+		out, err := cmd.CombinedOutput()
+		for _, l := range strings.Split(string(out), "\n") {
+			if strings.Contains(l, "TestVerifSelf") || strings.Contains(l, "compared") || strings.HasPrefix(l, "FAIL") || strings.HasPrefix(l, "ok") || strings.Contains(l, "refValid") || strings.Contains(l, "ref") {
+				fmt.Println(l)
+			}
+		}
+		if err != nil {
+			rc = 1
+		}
+	}
+	return rc
+}
